@@ -31,6 +31,13 @@ CONFIGS = {
     'rel_ci': ['-DCMAKE_BUILD_TYPE=RelWithDebInfo', '-DCHECK_INCONSISTENCIES=ON'],
     'rel_hadd_ci': ['-DCMAKE_BUILD_TYPE=RelWithDebInfo', '-DHEURISTIC_TYPE=h_add', '-DCHECK_INCONSISTENCIES=ON'],
     'dbg_exec': ['-DCMAKE_BUILD_TYPE=Debug', '-DBUILD_EXECUTOR=ON'],
+    'rel_exec': ['-DCMAKE_BUILD_TYPE=RelWithDebInfo', '-DBUILD_EXECUTOR=ON'],
+    'dbg_exec_hadd': ['-DCMAKE_BUILD_TYPE=Debug', '-DBUILD_EXECUTOR=ON', '-DHEURISTIC_TYPE=h_add'],
+    'dbg_exec_ci': ['-DCMAKE_BUILD_TYPE=Debug', '-DBUILD_EXECUTOR=ON', '-DCHECK_INCONSISTENCIES=ON'],
+    'dbg_exec_hadd_ci': ['-DCMAKE_BUILD_TYPE=Debug', '-DBUILD_EXECUTOR=ON', '-DHEURISTIC_TYPE=h_add', '-DCHECK_INCONSISTENCIES=ON'],
+    'rel_exec_hadd': ['-DCMAKE_BUILD_TYPE=RelWithDebInfo', '-DBUILD_EXECUTOR=ON', '-DHEURISTIC_TYPE=h_add'],
+    'rel_exec_ci': ['-DCMAKE_BUILD_TYPE=RelWithDebInfo', '-DBUILD_EXECUTOR=ON', '-DCHECK_INCONSISTENCIES=ON'],
+    'rel_exec_hadd_ci': ['-DCMAKE_BUILD_TYPE=RelWithDebInfo', '-DBUILD_EXECUTOR=ON', '-DHEURISTIC_TYPE=h_add', '-DCHECK_INCONSISTENCIES=ON'],
     'dbg_par': ['-DCMAKE_BUILD_TYPE=Debug', '-DPARALLELIZE=ON'],
     'rel_par': ['-DCMAKE_BUILD_TYPE=RelWithDebInfo', '-DPARALLELIZE=ON'],
     'asan': ['-DCMAKE_BUILD_TYPE=Debug', '-DCMAKE_CXX_FLAGS=-fsanitize=address,undefined -fno-omit-frame-pointer -fno-sanitize-recover=undefined'],
@@ -230,9 +237,16 @@ def validate_trace(module, trace, cfg=None, timeout=900, deque=False, xmx='8g', 
     if env:
         e.update(env)
     r = tlc(module, cfg, env=e, workers=1, timeout=timeout, deque=deque, xmx=xmx)
-    if r['parse_error'] or r['timeout'] or 'matched' not in r:
+    if r['parse_error'] or r['timeout'] or ('matched' not in r and 'Overflow when computing' not in r['out']):
         raise CheckError('trace validation with %s failed to run (rc=%s, timeout=%s):\n%s' % (
             module, r['rc'], r['timeout'], r['out'][-5000:]))
+    r['overflow'] = 'Overflow when computing' in r['out']
+    if r['overflow']:
+        # TLC integers are 32-bit: the line being evaluated has numbers too wide for the oracle. TLC prints the
+        # behaviour up to that point; the number of states it lists is the number of lines consumed so far
+        ls = re.findall(r'^/\\ l = (\d+)', r['out'], re.M)
+        r['matched'] = (int(ls[-1]) - 1) if ls else 0
+        return False, r['matched'], r['total'] if 'total' in r else 0, r
     if r['eval_error'] and not r['invariant_violated']:
         # an evaluation error inside the trace spec is a machinery problem unless it is how a rejection shows up
         raise CheckError('TLC evaluation error while validating with %s:\n%s' % (module, r['out'][-5000:]))
@@ -399,6 +413,11 @@ def validate_batch(ev, prop, module, lines, signature_fn, name, cfg=None, timeou
             sig = 'unparsable:' + str(ex)
         if r['invariant_violated']:
             sig += '/invariant:' + ','.join(r['invariant_violated'])
+        if r.get('overflow'):
+            ev.cov['executions_dropped_tlc_overflow'] = ev.cov.get('executions_dropped_tlc_overflow', 0) + 1
+            log('[overflow] execution %d of %s has numbers too wide for TLC (32-bit): skipped' % (start + k, name))
+            start += k + 1
+            continue
         f = match_finding(findings, sig)
         if f:
             if f['signature'] not in [x['signature'] for x in ev.known]:
